@@ -539,7 +539,7 @@ def _initialize_components(n_components, input, y=None, init='auto',
   if isinstance(init, np.ndarray):
     # we copy the array, so that if we update the metric, we don't want to
     # update the init
-    init = check_array(init, copy=True, dtype=float)
+    init = check_array(init, copy=True, dtype=[np.float64, np.float32])
 
     # Assert that init.shape[1] = X.shape[1]
     if init.shape[1] != n_features:
@@ -681,7 +681,7 @@ def _initialize_metric_mahalanobis(input, init='identity', random_state=None,
   if isinstance(init, np.ndarray):
     # we copy the array, so that if we update the metric, we don't want to
     # update the init
-    init = check_array(init, copy=True, dtype=float)
+    init = check_array(init, copy=True, dtype=[np.float64, np.float32])
 
     # Assert that init.shape[1] = n_features
     if init.shape != (n_features,) * 2:
